@@ -81,8 +81,9 @@ def _set_pilot_contract(cls):
                  + [(f, lambda s: [s.self._ev]) for f in EV_FIELDS]
                  + [(f, lambda s: [s.self._ev._battery]) for f in BATT_FIELDS],
         ensures=[
+            # C04: the pilot applied to a station is the value it was sent - whether or not an EV is attached
             C("C13.pilot_recorded", lambda old, new, ret: [
-                Eq(new.self._current_pilot, old.pilot), new.self._ev == old.self._ev]),
+                Eq(new.self._current_pilot, old.pilot), new.self._ev == old.self._ev], props=("C13", "C04")),
             C("C03.rate_within_pilot", lambda old, new, ret: Implies(occupied(old), And(
                 new.self._ev._current_charging_rate >= 0,
                 new.self._ev._current_charging_rate <= old.pilot,
